@@ -79,7 +79,7 @@ pub fn meta(id: &str) -> Option<CheckMeta> {
         "C14" => Some(CheckMeta {
             id: "C14",
             level: "exploration",
-            rule: "(a) policy level through the public FilterPolicy API: exhaustive family key lengths 0-9 x bits_per_key 1-64 plus generated key sets (0-3000 keys, duplicates, empty key, arbitrary bytes, all lengths mod 4), every member must answer may-match=true; (b) table level: tables as in C13 (block sizes 1-1Mi so that several data blocks share one 2 KiB filter range and 5 kB values make one block span several), with the Bloom policy and with a harness-supplied exact-set policy (exact membership, so a builder/reader disagreement about which filter covers a block is a deterministic false negative): for every data block offset and every user key stored in that block the filter block must answer may-match, and get of every stored (key, seq) must not be 'not in this file'. Non-trivial = table with >=3 filter ranges where one filter covers >=2 blocks or an empty filter lies between blocks (policy cases: non-empty key set); distinct by case hash".into(),
+            rule: "(a) policy level through the public FilterPolicy API: exhaustive family key lengths 0-9 x bits_per_key 1-64 plus generated key sets (0-3000 keys, duplicates, empty key, arbitrary bytes, all lengths mod 4), every member must answer may-match=true, also when the filter is queried by a policy instance with a different bits_per_key (30 % of the generated cases: the policy name stored in table files does not depend on bits_per_key); (b) table level: tables as in C13 (block sizes 1-1Mi so that several data blocks share one 2 KiB filter range and 5 kB values make one block span several), with the Bloom policy and with a harness-supplied exact-set policy (exact membership, so a builder/reader disagreement about which filter covers a block is a deterministic false negative): for every data block offset and every user key stored in that block the filter block must answer may-match, and get of every stored (key, seq) must not be 'not in this file'. Non-trivial = table with >=3 filter ranges where one filter covers >=2 blocks or an empty filter lies between blocks (policy cases: non-empty key set); distinct by case hash".into(),
             assumptions: vec!["the exact-set policy is part of the harness; the filter block builder/reader are raindb's".into()],
         }),
         "C05" => Some(CheckMeta {
